@@ -11,7 +11,7 @@ git -C /repo apply "$PATCH" || { echo "patch does not apply"; exit 2; }
 # evidence files are rewritten by the runs: keep the committed ones
 cp -r evidence /tmp/evidence.keep.$$
 for id in $IDS; do
-  out=$(./check $id $TIER 2>&1); e=$?
+  out=$(timeout -k 5 ${TRY_TIMEOUT:-600} ./check $id $TIER 2>&1); e=$?
   echo "$id exit=$e $(echo "$out" | grep -E '^VIOLATION' | head -1 | cut -c1-120) $(echo "$out" | grep -E '^  detail' | head -1 | cut -c1-260)"
 done
 git -C /repo checkout -- .
